@@ -253,7 +253,7 @@ pub fn run(report: &mut Report, replay: Option<&Value>) {
         return;
     }
     super::replay_corpus(report, &|r, v| replay_e1(r, v));
-    let hooks = Hooks { classify: &classify, classify_compile: &classify_compile, compile_failure_is_violation: true };
+    let hooks = Hooks { classify: &classify, classify_compile: &classify_compile, compile_failure_is_violation: true, rebuild: None };
 
     // ---- (a) input graphs: in-process syn analysis on all, compile flagged + sample
     let mut graphs: Vec<(Vec<Vec<Edge>>, Vec<bool>, String)> = Vec::new();
